@@ -4,6 +4,31 @@ import json, sys
 
 CHECKS = {
  # id: (engine, category, technique, level text, level note, design_ref)
+ "C02": ("geo", "exploration",
+         "exhaustive lattice enumeration of shapes x cells x groups against exact area oracles",
+         "Every point of a finite lattice of shapes (n-gons, radial polygons, circle, 219 trimers), cells and groups is built as a real state through the crate's deserialiser and its score, Shape::area and Cell2::area are compared with shoelace / exact disc-union / |AxB| oracles (1e-9 relative). Exhaustive over the lattice, not over the reals.",
+         "Trusted: shoelace and boundary-arc disc-union area (self-tested against a raster at start-up). The known trimer-area defect is keyed by an input predicate in known_findings.json; any other mismatch is a violation.",
+         "5/C02"),
+ "C12": ("geo", "exploration",
+         "exhaustive lattice enumeration of relative placements incl. exactly aligned ones against a separating-axis / disc-distance oracle",
+         "Every placement of a finite lattice (16 convex shapes x 8 rotations x mirror x a Cartesian grid plus the aligned set: shared vertices, vertices on edges, collinear edges with and without gap, touching discs, each shifted by +-0.5e-9/2e-9) is evaluated with both argument orders and after 5 common motions through the real Intersect::intersects and compared with the oracle outside the 1e-9 band.",
+         "Trusted: SAT penetration depth for convex polygons, disc distance. Inside the +-1e-9 band any answer is accepted.",
+         "5/C12"),
+ "C13": ("geo", "exploration",
+         "exhaustive lattice enumeration of (sigma, epsilon, cutoff, r, direction, motion) against the closed-form 12-6 law",
+         "Every point of the (sigma, epsilon, cutoff, distance, direction, rigid motion) lattice incl. r = cutoff +- ulp and the minimum is evaluated through the real LJ2::energy / LJShape2::energy and compared with the closed form; unlike pairs are checked for symmetry and invariance in both argument orders; molecule energy against the sum over particle pairs.",
+         "Trusted: closed-form law in oracle.rs. For unlike particles no mixing rule is prescribed by the property; only symmetry, invariance and zero beyond both cutoffs are required.",
+         "5/C13"),
+ "C14": ("geo", "exploration",
+         "exhaustive lattice enumeration of cells x points x placements x shells against closed-form lattice vectors",
+         "Complete product of cell parameters (incl. obtuse angles and all four family tags), fractional points, rotated/mirrored placements, shell counts 0..4 and both zero flags through Cell2's public methods, compared with xA+yB, the multiset {T+nA+mB} and |AxB|.",
+         "Trusted: the three-line closed form of A and B in oracle.rs.",
+         "5/C14"),
+ "C15": ("geo", "exploration",
+         "exhaustive lattice enumeration of site coordinates incl. +-1/2, +-ulp, -0.0, subnormal-scale and out-of-range values against an independent operation table",
+         "For all 7 groups and every pair of coordinate values from a list built around the wrap's edge cases, times 7 orientations, the placements of a real state are matched one-to-one with the independent ITA operations (position mod 1, linear part, half-open cell) and compared with 6 lattice/2pi-shifted re-descriptions.",
+         "Trusted: ITA table in oracle.rs.",
+         "5/C15"),
  "C16": ("sym", "exploration",
          "exhaustive enumeration of the finite group tables against an independent ITA table",
          "Complete enumeration: all 7 groups, every operation, every ordered pair and inverse, every operation conjugated into a grid of cells of its family, compared with an independent table of ITA general positions. The space is finite, so this is exhaustive in the literal sense.",
@@ -51,6 +76,7 @@ def main():
             "add_only": True,
         },
         "engines": [
+            {"name": "geo", "path": "harness/src/geo1.rs", "serves_properties": ["C02", "C12", "C13", "C14", "C15"], "kind_free_text": "exhaustive enumeration of finite input lattices built from the code's thresholds, bounds and exact alignments, judged by independent closed-form oracles"},
             {"name": "sym", "path": "harness/src/sym.rs", "serves_properties": ["C16", "C17"], "kind_free_text": "complete enumeration of finite tables and of a string grammar against independent evaluators"},
         ],
         "checks": checks,
